@@ -47,6 +47,8 @@ def build(inst, node_cls=None):
             if kw.get(k) is not None:
                 kw[k] = tuple(kw[k])
         return fixtures.fanout_graph(supergraph=mode, **kw)
+    if kind == "random":
+        return fixtures.random_graph(supergraph=mode, **kw)
     if kind == "hetero":
         kw["settings"] = [tuple(x) for x in kw["settings"]]
         return fixtures.hetero_graph(supergraph=mode, **kw)
@@ -71,6 +73,18 @@ def instances(tier, small=False):
             d["mode"] = m
             out.append(d)
     return out
+
+
+def random_instances(tier, quick_n=4):
+    """seeded random topologies (fixtures.random_graph): 3-4 nodes, random rates/windows/delays, forward fan-in/fan-out links and a skipped
+    feedback link.  (seed 2 with 4 nodes is left out: no reader of the supervisor's output runs inside the compiled horizon and rex's
+    Graph.init refuses the instance -- observation O4 in DESIGN.md.)"""
+    modes_ = ["mcs", "generational", "topological"]
+    if tier != "thorough":
+        picks = [(0, 4), (1, 4), (5, 4), (3, 3)][:quick_n]
+    else:
+        picks = [(s_, n) for s_ in range(24) for n in (3, 4) if (s_, n) != (2, 4)]
+    return [dict(kind="random", seed=s_, n_nodes=n, mode=modes_[s_ % 3], ts_max=0.4) for s_, n in picks]
 
 
 def check_eq(alg, a_tree, b_tree, assumptions=(), timeout=60):
